@@ -20,7 +20,9 @@ Definition spec_path (name : string) : list field :=
 Fixpoint is_prefix_of (p q : list field) : bool :=
   match p, q with
   | [], _ => true
-  | f :: r, g :: s => field_eqb f g && is_prefix_of r s
+  (* by their texts: whether a numeric segment is an index or a name of the data is decided by
+     the options of the call (MaxIdx, EnableNumKeys), the path names it either way *)
+  | f :: r, g :: s => String.eqb (field_str f) (field_str g) && is_prefix_of r s
   | _, [] => false
   end.
 
